@@ -16,6 +16,8 @@ CHECKS = {
          "bounds as C02; one known finding (UAX #14 opportunity inside a grapheme) listed; per-line varying widths through WrapNextLine not covered"),
  "C08": ("computeBidiOrdering on symbolic embedding levels against rule L2 of UAX #9 (every level sequence of the bounded length in one query family), and the visual order of every line produced by the wrap harness",
          "levels up to base+2 and 4/6 runs; levels >= base+2 are a known finding (the API carries only directions); trimming-run selection covered only through the wrap harness"),
+ "C06": ("the real segmenter.Segmenter.Init on symbolic texts whose positions range over one representative per class tuple of ALL code points (class lookups summarised over that finite domain, class pointers as guarded choices, rule cascades merged into terms): grapheme boundaries against a multi-pass UAX #29 reference (GB3-GB13, GB999), mandatory line breaks and LB2/LB3/LB5 against UAX #14, reuse against a fresh segmenter; and the Line/Grapheme/Word iterators on arbitrary attribute arrays",
+         "sequence length bounded (2 quick / 3 thorough); word boundaries (WB rules) and the optional line-break opportunities LB6-LB31 are NOT decided against an independent reference (only their structural consequences through the iterators and the wrap harness); correctness of the class tables themselves is outside"),
  "C07": ("the real shaping.Segmenter.Split (bidi split through x/text executed from source, script/delimiter stack, language enforcement, vertical orientation, face split) on every bounded text and sub-range, for every direction bit pattern and every font map (an uninterpreted function of rune and script hint): partition, untouched fields and per-rune uniformity decided for all of them",
          "texts bounded (length, alphabet); the bidi algorithm itself (x/text) and the script/orientation tables are trusted; the reuse clause is checked under C13"),
  "C09": ("every listed generated table parser of font/opentype/tables executed on an arbitrary symbolic byte string with arbitrary non-negative count arguments: no implicit panic, bounded allocation, termination within the unwinding bound, read count inside the input",
@@ -24,8 +26,8 @@ CHECKS = {
          "cmaps assumed sorted/non-overlapping (OpenType requirement); cmap0, the symbol/PUA remappers, ProcessCmap's subtable selection and the script half of the coverage are not covered"),
  "C12": ("RecalculateAll/RecomputeAdvance, sideways, AddWordSpacing/AddLetterSpacing/trimStartLetterSpacing on fully symbolic glyph metrics and the real Shape over a stubbed HarfBuzz (sideways law by two Shape calls): identities decided for all metrics within the glyph-count bound",
          "metrics bounded by 2^20; HarfBuzz by contract; scale arithmetic inside HarfBuzz outside"),
- "C13": ("history independence by comparing an object used before with a fresh one on symbolic arguments: shaping.Segmenter.Split (two inputs)",
-         "only the itemizer (shaping.Segmenter) is covered so far; shaper caches, faces, line wrapper and segmenter.Segmenter reuse are not covered yet"),
+ "C13": ("history independence by comparing an object used before with a fresh one on symbolic arguments: shaping.Segmenter.Split (two inputs) and segmenter.Segmenter.Init (two symbolic class sequences)",
+         "the itemizer and the UAX segmenter are covered; shaper caches (font LRU, plan cache), font.Face settings and LineWrapper reuse are not covered yet"),
  "C14": ("the real FontMap.ResolveFace / SetQuery / SetScript / rune LRU on histories over a database with symbolic coverage, with arbitrary candidate lists per (query, script): non-nil result and equality with an uncached reference computed from the current state only",
          "candidate construction (family substitution, exact-family selection) is stubbed by contract; maphash is a concrete FNV fold for concrete strings (collisions not explored); AddFace/AddFont, font loading errors and system fonts are outside; histories and the probed rune domain are bounded as stated"),
  "C15": ("symbolic execution of the real retainsBestMatches/matchStretch/matchStyle/matchWeight/filterBy* over candidate sets whose aspects are symbolic grid values (IEEE float32 terms), every request case-split; the solver decides equality with a CSS Fonts §5.2 reference for all candidate multisets of the bounded size",
